@@ -15,6 +15,7 @@ run_demo() {  # $1 = label
   if [ -f "$SD/demo.sh" ]; then (cd "$W" && NAIJA="$CARGO_TARGET_DIR/debug/naija" bash "$SD/demo.sh" "$CARGO_TARGET_DIR/debug/naija") > "$SD/confirm.$1.txt" 2>&1
   elif [ -f "$SD/demo.ns" ]; then timeout 60 "$CARGO_TARGET_DIR/debug/naija" "$SD/demo.ns" 2>&1 | sed 's/\x1b\[[0-9;]*m//g; s/thread .main. ([0-9]*)/thread main/' > "$SD/confirm.$1.txt"
   elif ls "$SD"/*.rs >/dev/null 2>&1; then cp "$SD"/*.rs tests/; t=$(basename "$(ls "$SD"/*.rs | head -1)" .rs); cargo test --offline --test "$t" > "$SD/confirm.$1.txt" 2>&1; echo "exit=$?" >> "$SD/confirm.$1.txt"; rm -f tests/$t.rs
+  elif [ -f "$SD/demo_test.diff" ]; then git apply "$SD/demo_test.diff" && { cargo test --offline --lib seed_demo 2>&1 | grep -E "^test |^test result|panicked" > "$SD/confirm.$1.txt"; git apply -R "$SD/demo_test.diff"; }
   else echo "no demo" > "$SD/confirm.$1.txt"; fi
 }
 cargo build --offline >>"$LOG" 2>&1
